@@ -19,7 +19,7 @@ Definition show_kt (l : list (string * ty)) : string := sjoin "#" (map (fun p =>
 Definition show_end (k : endk) : string := match k with ESend => "S" | ERecv => "R" end.
 Definition show_pre (p : pre) : string := match p with PreGet x g => "g:" ++ x ++ ":" ++ g | PreChan None => "c:-" | PreChan (Some a) => "c:" ++ a end.
 Definition show_diag (d : diag) : string := match d with DEndInRet => "DEndInRet" | DEndType => "DEndType" | DMixed => "DMixed"
-  | DBothEnds => "DBothEnds" | DInPattern => "DInPattern" | DNoInteract => "DNoInteract" end.
+  | DBothEnds => "DBothEnds" | DInPattern => "DInPattern" | DNoInteract => "DNoInteract" | DFlatName => "DFlatName" | DInterActor => "DInterActor" end.
 Definition show (r : result) : string :=
   match r with
   | Diag d => "DIAG|" ++ show_diag d
@@ -29,7 +29,7 @@ Definition show (r : result) : string :=
 '''
 
 LIBS = gen_impl.LIBS
-ORD_NAMES = ["a", "b", "c", "x", "y", "n", "val", "key", "item", "count", "inter", "interx", "sprinter", "send", "recv"]
+ORD_NAMES = ["a", "b", "c", "x", "y", "n", "val", "key", "item", "count", "inter", "interx", "sprinter", "send", "recv", "actor"]
 MIXED_NAMES = ["pointer_x", "my_inter_v", "winter_1", "printer_id", "x_inter_"]
 GET_NAMES = ["inter_name", "inter_count", "inter_debut", "inter_foo", "inter_x1", "inter_", "inter_sender", "inter_receive"]
 INNER = ["u8", "(u8, u8)", "Vec<u8>", "String", "Option<Vec<u8>>", "[u8; 2]", "&'static str"]
@@ -129,7 +129,10 @@ def mk_param(rng, kind, nm, lib, irregular):
     """one parameter of the given kind: dict(kind, text, tree, ty, coq_ty, flags)"""
     p = {"kind": kind, "flags": set()}
     if kind == "O":
-        if irregular and rng.random() < 0.25:
+        if irregular and rng.random() < 0.06:
+            x = "inter_actor"
+            p["flags"].add("inter-actor")
+        elif irregular and rng.random() < 0.25:
             x = nm.fresh(MIXED_NAMES)
             p["flags"].add("mixed")
         else:
@@ -195,10 +198,15 @@ def mk_case(rng, kinds, lib, irregular=False, interact=None, ret=None):
         # envelope: the flattened names are distinct too (`(inter, count)` next to `inter_count` is the F3 name-collision class, not C14's)
         for p in ps:
             # a pattern whose leaves join to a reserved name (`(inter, send)` -> inter_send) is treated by the macro like the reserved name
-            if p["tree"][0] != "id" and "_".join(leaves(p["tree"])) in ("inter_send", "inter_recv"):
+            if p["tree"][0] != "id" and "_".join(leaves(p["tree"])) in ("inter_send", "inter_recv", "inter_actor"):
                 p["flags"].add("inter-in-pattern")
         fl = ["_".join(leaves(p["tree"])) or "__" for p in ps if p["kind"] != "E"]
         if len(set(fl)) == len(fl) and not (set(fl) & {"inter_send", "inter_recv"} and any(p["kind"] == "E" for p in ps)):
+            break
+        if irregular and rng.random() < 0.3:
+            # two parameters flattening to the same identifier: refused by the naming check (documentation silent: either)
+            for p in ps:
+                p["flags"].add("dup-flat")
             break
     if interact is None:
         interact = rng.random() < 0.85
@@ -245,7 +253,8 @@ def corpus(rng, tier):
     # every irregular class on every lib (bounded retry until the generator produces the flag)
     for lib in LIBS:
         for kinds, flag in ((("P", "G"), "inter-in-pattern"), (("G", "P", "O"), "inter-in-pattern"), (("E",), "bad-end-type"), (("O", "E"), "bad-end-type"),
-                            (("E", "G"), "wrong-end-type"), (("O", "G"), "mixed"), (("P",), "inter-in-pattern")):
+                            (("E", "G"), "wrong-end-type"), (("O", "G"), "mixed"), (("P",), "inter-in-pattern"),
+                            (("O", "G", "E"), "inter-actor"), (("P", "G", "P", "O"), "dup-flat")):
             for _ in range(3 if tier == "quick" else 12):
                 for _try in range(200):
                     c = mk_case(rng, kinds, lib, irregular=True, interact=True, ret=False)
@@ -264,7 +273,10 @@ def corpus(rng, tier):
 # ---------- projections ----------
 DIAG_CLASSES = [("cannot be accessed in methods that return a type", "DEndInRet"), ("Unexpected type argument for", "DEndType"),
                 ("Expected a path type", "DEndType"), ("mixed identifiers", "DMixed"), ("Concurrent use of", "DBothEnds"),
-                ("within function parameter pattern", "DInPattern"), ("Naming conflict", "DNoInteract")]
+                ("within function parameter pattern", "DInPattern"),
+                # three diagnostics share the text "Naming conflict"; the note tells which check fired
+                ("carried under one identifier", "DFlatName"), ("`inter_actor` is reserved", "DInterActor"),
+                ("Using method arguments named", "DNoInteract"), ("Naming conflict", "DNaming")]
 
 
 def diag_class(text):
@@ -351,7 +363,7 @@ def same(a, b):
 def oracle(c, real):
     ps = c["params"]
     ends = [p for p in ps if p["kind"] == "E"]
-    silent = any(p["flags"] & {"mixed", "inter-in-pattern", "bad-end-type"} for p in ps)
+    silent = any(p["flags"] & {"mixed", "inter-in-pattern", "bad-end-type", "dup-flat", "inter-actor"} for p in ps)
     if c["interact"] and ends and c["ret"]:
         return [] if real["cls"] == "DIAG" else ["documentation rule 4: a channel end in a method that returns a type must be refused; got %s" % real["cls"]]
     if c["interact"] and len(ends) >= 2:
